@@ -33,7 +33,8 @@
    (hold = TRUE: the family also issues writes that stay in flight; cerr = members whose Close reports an error). *)
 EXTENDS Integers, Sequences, FiniteSets, FiniteSetsExt, TLC, Json
 
-CONSTANTS Members,   \* universe of member ids, e.g. {"m1","m2","m3"}
+CONSTANTS MaxFails,  \* number of members whose Read may fail (environment op memberFail) in the exhaustive families
+          Members,   \* universe of member ids, e.g. {"m1","m2","m3"}
           Ids,       \* universe of ids a configuration / scheduler may name, e.g. Members \cup {"zz",""}
           AsCoded,   \* see above
           GenCanon   \* TRUE: internal steps are applied eagerly (script generation: environment ops only)
@@ -51,6 +52,7 @@ Base(b, c) ==
      nsel |-> 0,
      to |-> <<>>,          \* to[k]   = member that received write k (None: the call crashed)
      wsel |-> <<>>,        \* wsel[k] = ghost `chosen` at the time of write k
+     failed |-> {},                        \* members whose Read has failed: their reader goroutine has ended, nothing else changes
      inbox |-> [m \in Members |-> <<>>],   \* messages a member's Read has returned, not yet on readResCh
      q |-> <<>>,           \* readResCh
      fedTo |-> <<>>,       \* fedTo[k] = member that handed out message k
@@ -91,6 +93,10 @@ MemberRead(st, m) ==
     LET k == Len(st.fedTo) + 1 IN
     [st EXCEPT !.fedTo = Append(@, m), !.inbox[m] = Append(@, k), !.last = [a |-> "memberRead", ret |-> "ok", k |-> k]]
 
+\* a member's pending Read fails with a connection error: that member's reader ends; the transport stays open, the other members are
+\* still read, writes still go to the current member, and Close still closes EVERY member
+MemberFail(st, m) == [st EXCEPT !.failed = @ \cup {m}, !.last = [a |-> "memberFail", ret |-> "ok", k |-> 0]]
+
 ReadMsg(st) ==       \* precondition: st.q # <<>>
     [st EXCEPT !.got = Append(@, Head(st.q)), !.q = Tail(@), !.last = [a |-> "read", ret |-> "msg", k |-> Head(st.q)],
                !.rac = IF st.status = "closed" THEN @ + 1 ELSE @]
@@ -120,6 +126,7 @@ Step(st, op) ==
       [] op.a = "writeBegin" -> WriteBegin(st)
       [] op.a = "writeEnd"   -> WriteEnd(st)
       [] op.a = "memberRead" -> MemberRead(st, op.src)
+      [] op.a = "memberFail" -> MemberFail(st, op.src)
       [] op.a = "read"       -> IF st.status = "closed" /\ (st.q = <<>> \/ "mode" \notin DOMAIN op) THEN ReadClosed(st) ELSE ReadMsg(st)
       [] op.a = "close"      -> Close(st)
       [] op.a \in {"counters", "asUnreliable", "negotiationParams"} -> Probe(st, op.a)
@@ -142,7 +149,7 @@ EnabledOps(st) ==
     LET b == st.b  open == st.status = "open" IN
     IF st.hold # None      \* a write is in flight: the calls that take m.mu are not issued (they would queue behind transportIDLoop's Lock)
     THEN (IF st.nsel < b.maxSel /\ Len(st.pending) < 2 THEN { [a |-> "select", id |-> i] : i \in b.selIds } ELSE {})
-         \cup (IF Len(st.fedTo) < b.maxR THEN { [a |-> "memberRead", src |-> m, n |-> Len(st.fedTo) + 1] : m \in b.M } ELSE {})
+         \cup (IF Len(st.fedTo) < b.maxR THEN { [a |-> "memberRead", src |-> m, n |-> Len(st.fedTo) + 1] : m \in b.M \ st.failed } ELSE {})
          \cup (IF st.q # <<>> THEN { [a |-> "read"] } ELSE {})
          \cup { [a |-> "writeEnd"] }
          \cup (IF GenCanon THEN {} ELSE InternalOps(st))
@@ -150,7 +157,8 @@ EnabledOps(st) ==
     (IF open /\ st.nsel < b.maxSel THEN { [a |-> "select", id |-> i] : i \in b.selIds } ELSE {})
     \cup (IF open /\ Len(st.to) < b.maxW THEN { [a |-> "write", n |-> Len(st.to) + 1] } ELSE {})
     \cup (IF open /\ b.hold /\ Len(st.to) < b.maxW THEN { [a |-> "writeBegin", n |-> Len(st.to) + 1] } ELSE {})
-    \cup (IF open /\ Len(st.fedTo) < b.maxR THEN { [a |-> "memberRead", src |-> m, n |-> Len(st.fedTo) + 1] : m \in b.M } ELSE {})
+    \cup (IF open /\ Len(st.fedTo) < b.maxR THEN { [a |-> "memberRead", src |-> m, n |-> Len(st.fedTo) + 1] : m \in b.M \ st.failed } ELSE {})
+    \cup (IF open /\ Cardinality(st.failed) < MaxFails THEN { [a |-> "memberFail", src |-> m] : m \in b.M \ st.failed } ELSE {})
     \cup (IF open /\ st.q # <<>> THEN { [a |-> "read"] } ELSE {})
     \cup (IF open /\ st.nprobe < b.maxP THEN { [a |-> p] : p \in b.probes } ELSE {})
     \cup (IF open THEN { [a |-> "close"] } ELSE {})
